@@ -300,6 +300,11 @@ func (c19) Generate(prop string, r *simrt.RNG, tier string, run int) *simrt.Scen
 	if r.Chance(1, c19FreshDen) {
 		sc.Knobs["fresh"] = 1
 	}
+	// conc: the queries are also asked by several goroutines at once, from cold
+	// caches (always in the race-detector tier)
+	if r.Chance(1, 4) || os.Getenv("VERIF_RACE") == "1" {
+		sc.Knobs["conc"] = int64(r.Range(3, 8))
+	}
 	hs := cfgOf(sc).heights()
 	h := func() int64 { return hs[r.Intn(len(hs))] }
 	var kinds []string
@@ -525,6 +530,85 @@ func (c19) Execute(t *testing.T, ctx *simrt.Ctx) *simrt.Violation {
 		fmt.Fprintf(&hist, "%s/%d@%d=%s;", op.K, op.Int(0), op.Int(1), got)
 	}
 	ctx.State(simrt.DigestOf(hist.String()))
+	// phase 2b: the queries asked by several goroutines at the same time, each
+	// round starting from cold caches. All queries of a round use one height (the
+	// node's current height is one process-wide value); many more executor names
+	// than the generated ones are resolved for the first time concurrently.
+	if nG := int(sc.Knob("conc", 0)); nG > 0 {
+		type q struct {
+			op   simrt.Op
+			want string
+		}
+		for round := 0; round < 6; round++ {
+			H := sc.Ops[round%len(sc.Ops)].Int(1)
+			var qs []q
+			for i := range sc.Ops {
+				op := sc.Ops[i]
+				op.I = append([]int64(nil), op.I...)
+				op.I[1] = H
+				if op.K == "fmtk" || op.K == "load" {
+					continue
+				}
+				pristine()
+				a, site := ask(&op)
+				if site != "" {
+					qs = append(qs, q{op, a})
+				}
+			}
+			extra := make([]string, 40)
+			wantExtra := make([]string, len(extra))
+			cclient.SetCurrentBlock(H, 0)
+			for k := range extra {
+				extra[k] = fmt.Sprintf("user.p.conc%d.r%d.x%d", sc.Run%7, round, k)
+				pristine()
+				wantExtra[k] = address.ExecAddress(extra[k])
+			}
+			pristine()
+			cclient.SetCurrentBlock(H, 0)
+			var wg sync.WaitGroup
+			var mu sync.Mutex
+			var bad string
+			start := make(chan struct{})
+			for g := 0; g < nG; g++ {
+				wg.Add(1)
+				go func(g int) {
+					defer wg.Done()
+					<-start
+					for k := range extra {
+						j := (k*7 + g*13) % len(extra)
+						if got := address.ExecAddress(extra[j]); got != wantExtra[j] {
+							mu.Lock()
+							if bad == "" {
+								bad = fmt.Sprintf("address.ExecAddress|address.ExecAddress(%q) answered %q while %d goroutines resolved executor names for the first time, %q alone", extra[j], got, nG, wantExtra[j])
+							}
+							mu.Unlock()
+						}
+					}
+					for k := range qs {
+						x := &qs[(k+g*5)%len(qs)]
+						op := x.op
+						got, site := ask(&op)
+						if got != x.want {
+							mu.Lock()
+							if bad == "" {
+								bad = fmt.Sprintf("%s|%s at height %d under %s: answered %q while %d goroutines asked concurrently, %q when asked alone", site, site, H, c, got, nG, x.want)
+							}
+							mu.Unlock()
+						}
+					}
+				}(g)
+			}
+			close(start)
+			wg.Wait()
+			ctx.Fault("concurrent_first_use")
+			if bad != "" {
+				parts := strings.SplitN(bad, "|", 2)
+				return ctx.Violate("interleaving-dependent", parts[0]+"/concurrent", "%s", parts[1])
+			}
+		}
+		ctx.Probe("concurrent_rounds")
+		pristine()
+	}
 	// phase 3: two literally fresh processes answer the history forwards and
 	// backwards without any cache reset. Whatever a process remembers — including
 	// state no reset hook knows about — then shows as a difference between the
